@@ -3,7 +3,7 @@ CONSTANT MaxPro = 2
 CONSTANT MaxBody = 2
 CONSTANT MaxEpi = 1
 CONSTANT Styles = {"one", "sep", "split", "cmt", "mixed", "none", "startonly", "endonly"}
-CONSTANT EdgeCodes = {"i", "c", "S", "E", "B0"}
+CONSTANT EdgeCodes = {"i", "c", "S", "B0"}
 SPECIFICATION Spec
 INVARIANT TypeOK
 INVARIANT KernelIsStrictlyBetween
